@@ -112,6 +112,11 @@ func (c *FnCtx) setVal(v ssa.Value, x Val) {
 	if _, isPtr := v.Type().Underlying().(*types.Pointer); isPtr && len(x.Path) == 0 {
 		c.refVals = append(c.refVals, x)
 	}
+	if c.sortOfSafe(v.Type()) == "Slice" {
+		if r := fold("(s_reg " + x.T + ")"); !isAllocConst(r) {
+			c.refVals = append(c.refVals, Val{T: r})
+		}
+	}
 }
 
 // ------------------------------------------------------------------ integer ops
@@ -856,4 +861,16 @@ func (c *FnCtx) mapLookup(in *ssa.Lookup, get getter, h Heap) Val {
 		return Val{T: "0", Ty: in.Type()}
 	}
 	return Val{T: v, Ty: mt.Elem()}
+}
+
+func (c *FnCtx) sortOfSafe(t types.Type) (s string) {
+	defer func() {
+		if r := recover(); r != nil {
+			s = ""
+		}
+	}()
+	if _, ok := t.(*types.Tuple); ok {
+		return ""
+	}
+	return c.sortOf(t)
 }
